@@ -16,7 +16,8 @@ E == Rec[l]
 Has(r, f) == f \in DOMAIN r
 
 (* ---- stimulus projection *)
-Lim(n) == IF n < 0 THEN DefaultLimit ELSE n
+\* -1: not configured (the default); -2, -3, -4: limits of 2^32 and more, which TLC's integers cannot hold: larger than any message here
+Lim(n) == IF n = -1 THEN DefaultLimit ELSE IF n < -1 THEN 2147483647 ELSE n
 SerOfItem(it, codec) == IF it.k = "pmsg" THEN ProtoSerTest([a |-> it.a, b |-> it.b, c |-> it.c]) ELSE it.b
 Items(stim) == [i \in 1..Len(stim.items) |->
                   LET it == stim.items[i] IN
